@@ -68,7 +68,7 @@ uint64_t vp_check_leaks(void) { return 0; }
 void vp_free_now(void *) {}
 int  vp_mutex_held(const void *) { return 1; }
 int  vp_threads_alive(void) { return 0; }
-void vp_yield(void) { usleep(30000); }     /* let the worker threads run until they park */
+void vp_yield(void) { static int ms = -1; if (ms < 0) { const char * p = getenv("VP_YIELD_MS"); ms = p ? atoi(p) : 30; } usleep(ms * 1000); }     /* let the worker threads run until they park */
 static const void * g_ncv[64]; static uint64_t g_ncnt[64]; static int g_nn = 0;
 static pthread_mutex_t g_nmx = PTHREAD_MUTEX_INITIALIZER;
 static void note_notify(const void * cv) {
